@@ -13,8 +13,16 @@
 //! The parent parses the log into syscall records and judges each with `judge` (an independent Rust copy of
 //! Effects.judge; the extracted Coq function is run on the same records by ocaml/c10_main.ml and compared line by
 //! line): no socket/connect/send/bind outside AF_UNIX, no connect at all, no open of a resolver file, and every
-//! open-for-writing / rename / unlink / mkdir hits a configured path of that phase.  Afterwards the scratch tree is
-//! walked: every file is a pre-written document (unchanged) or a configured file.
+//! open-for-writing / unlink hits the user dictionary, its `.tmp` sibling, the statistics file or a file directly
+//! inside the file-dictionary directory of that phase; the only rename is `<dictionary>.tmp` -> `<dictionary>`
+//! (save_dict since 87b8642); mkdir only towards a configured location.  Afterwards the scratch tree is walked: every
+//! file is a pre-written document (unchanged) or a configured file.
+//!
+//! Every op of a session is announced by a marker `<phase>#<index>[.<step>]`, so each system call is attributed to
+//! the document URI and command in progress.  Sessions include unusual URIs (untitled: opaque / absolute path / `..`,
+//! notebook cell, `file:///`, directory, %2F) each followed by HarperAddToFileDict and HarperAddToUserDict.  For
+//! every add-to-dictionary command the open-for-writing and rename calls actually issued are compared with the
+//! extracted save-path model (EffectsSave.file_dict_plan / user_dict_plan): correspondence lines `F …` / `U …`.
 //!
 //! Thorough tier: additionally builds the real harper-ls binary and runs it under strace in --stdio mode and in
 //! TCP mode (the listener must be one AF_INET socket bound to 127.0.0.1:4000; nothing else).
@@ -83,8 +91,28 @@ fn parent_dir(p: &[u8]) -> &[u8] {
 fn leads_to(dir: &[u8], target: &[u8]) -> bool {
     target.len() > dir.len() + 1 && target.starts_with(dir) && target[dir.len()] == b'/'
 }
+/// `<p>.tmp`: the temporary sibling save_dict writes before renaming it over the dictionary `p`
+fn tmp_sibling(p: &[u8]) -> Vec<u8> {
+    let mut v = p.to_vec();
+    v.extend_from_slice(b".tmp");
+    v
+}
+/// the user dictionary or a file directly inside the file-dictionary directory
+fn is_dict_file(c: &MCfg, p: &[u8]) -> bool {
+    p == c.user.as_slice() || parent_dir(p) == c.filedir.as_slice()
+}
+/// may be created / opened for writing / removed: user dictionary, its `.tmp` sibling, the statistics file (no
+/// temporary sibling: save_stats appends in place), any file directly inside the file-dictionary directory
 fn path_allowed(c: &MCfg, p: &[u8]) -> bool {
-    p == c.user.as_slice() || p == c.stats.as_slice() || parent_dir(p) == c.filedir.as_slice() || c.own.iter().any(|o| o.as_slice() == p)
+    p == c.user.as_slice()
+        || p.strip_suffix(b".tmp".as_slice()).map_or(false, |stem| stem == c.user.as_slice())
+        || p == c.stats.as_slice()
+        || parent_dir(p) == c.filedir.as_slice()
+        || c.own.iter().any(|o| o.as_slice() == p)
+}
+/// the only rename: `<dictionary>.tmp` over `<dictionary>`
+fn rename_allowed(c: &MCfg, src: &[u8], dst: &[u8]) -> bool {
+    is_dict_file(c, dst) && src == tmp_sibling(dst).as_slice()
 }
 fn mkdir_allowed(c: &MCfg, p: &[u8]) -> bool {
     leads_to(p, &c.user) || leads_to(p, &c.stats) || leads_to(p, &c.filedir) || p == c.filedir.as_slice()
@@ -116,7 +144,7 @@ fn judge(c: &MCfg, e: &Ev) -> u8 {
             }
         }
         Ev::Rename(a, b) => {
-            if path_allowed(c, a) && path_allowed(c, b) {
+            if rename_allowed(c, a, b) {
                 0
             } else {
                 3
@@ -461,7 +489,11 @@ fn lang_of(fe: &str) -> String {
 
 /// where a path setting ends up: explicit (absolute or ~-relative) or the Config::default() location under $HOME
 fn effective(setting: Option<&str>, home: &str, default_rel: &str) -> Vec<u8> {
-    let s = match setting {
+    normalize(b"/", effective_raw(setting, home, default_rel).as_bytes())
+}
+/// the same before normalisation (trailing slash, `//`, `/./` kept): what the save-path model is given
+fn effective_raw(setting: Option<&str>, home: &str, default_rel: &str) -> String {
+    match setting {
         Some(s) if !s.is_empty() => {
             if let Some(rest) = s.strip_prefix("~/") {
                 format!("{home}/{rest}")
@@ -470,8 +502,27 @@ fn effective(setting: Option<&str>, home: &str, default_rel: &str) -> Vec<u8> {
             }
         }
         _ => format!("{home}/{default_rel}"),
-    };
-    normalize(b"/", s.as_bytes())
+    }
+}
+/// (userDictPath, fileDictPath) as configured, `~` expanded, not normalised
+fn raw_dict_paths(settings: &Value, home: &str) -> (String, String) {
+    let h = &settings["harper-ls"];
+    (
+        effective_raw(h["userDictPath"].as_str(), home, ".config/harper-ls/dictionary.txt"),
+        effective_raw(h["fileDictPath"].as_str(), home, ".local/share/harper-ls/file_dictionaries"),
+    )
+}
+/// the file path of a document URI, by the url crate's own `to_file_path` (third-party: an INPUT of the save-path model)
+fn uri_file_path(uri: &str) -> Option<Vec<u8>> {
+    use std::os::unix::ffi::OsStrExt;
+    lsx::tower_lsp::lsp_types::Url::parse(uri).ok().and_then(|u| u.to_file_path().ok()).map(|p| p.as_os_str().as_bytes().to_vec())
+}
+/// no component besides the root: file_dict_name is then the empty string (finding FC10a)
+fn empty_dict_name(fp: &Option<Vec<u8>>) -> bool {
+    match fp {
+        Some(p) => p.split(|c| *c == b'/').all(|seg| seg.is_empty() || seg == b"."),
+        None => false,
+    }
 }
 fn cfg_of(settings: &Value, home: &str) -> MCfg {
     let h = &settings["harper-ls"];
@@ -566,6 +617,27 @@ fn build_scenario(scratch: &str, seed: u64, n_lib: usize, n_sessions: usize, doc
             let on_disk = if r.chance(1, 2) { text.clone() } else { text2.clone() };
             docs.push(json!({"uri": uri, "path": path, "lang": lang_of(&fe), "text": text, "text2": text2, "on_disk": on_disk}));
         }
+        // unusual document URIs (seed c10-2: a file-dictionary name that is absolute or contains `..` makes
+        // PathBuf::join leave fileDictPath): unsaved buffers in VS Code's three shapes — opaque `untitled:Untitled-1`,
+        // with an associated absolute path, with `..` —, a notebook cell, directory / root / dot-dot / %2F file URLs.
+        // Every escape these could cause lands inside the scratch tree (at most two `..`), never in `/`.
+        let dd = format!("{scratch}/docs/s{k}");
+        let enc = |p: &str| p.replace(' ', "%20").replace('ö', "%C3%B6").replace('ü', "%C3%BC");
+        let odd: Vec<String> = vec![
+            "untitled:Untitled-1".to_string(),
+            format!("untitled:{}", enc(&format!("{dd}/draft-{k}.md"))),
+            format!("untitled:../../escape-{k}.md"),
+            format!("untitled:{}", enc(&format!("{dd}/sub dir/../ünsaved {k}.md"))),
+            format!("untitled:..%2F..%2Fesc-enc-{k}.md"),
+            format!("untitled:Untitled-{k}/../../../nested-{k}"),
+            format!("vscode-notebook-cell:{}#W0sZmlsZQ%3D%3D", enc(&format!("{dd}/nb-{k}.ipynb"))),
+            format!("file://{}/", enc(&dd)),
+            format!("file://{}/a/../../up-{k}.md", enc(&dd)),
+            format!("file://{}/enc%2F..%2F..%2Fslash-{k}.md", enc(&dd)),
+            format!("file://localhost{}/lh-{k}.md", enc(&dd)),
+            format!("file://{}/..", enc(&dd)),
+            "file:///".to_string(),
+        ];
         let mut ops = vec![];
         for j in 0..docs_per_session {
             ops.push(json!({"op": "open", "doc": j}));
@@ -583,9 +655,15 @@ fn build_scenario(scratch: &str, seed: u64, n_lib: usize, n_sessions: usize, doc
             ops.push(json!({"op": "add_file", "doc": 1, "word": "wörd’s"}));
             ops.push(json!({"op": "actions", "doc": 1, "max": 8}));
         }
+        for i in 0..odd.len() {
+            ops.push(json!({"op": "odd", "i": i, "word": format!("qvex{k}x{i}")}));
+        }
         ops.push(json!({"op": "unknown_command"}));
         if settings2.is_some() {
             ops.push(json!({"op": "config"}));
+            for i in 0..odd.len() {
+                ops.push(json!({"op": "odd", "i": i, "word": format!("movedqvex{k}x{i}")}));
+            }
             ops.push(json!({"op": "add_user", "doc": 0, "word": "movedword"}));
             ops.push(json!({"op": "add_file", "doc": 0, "word": "movedfileword"}));
             ops.push(json!({"op": "actions", "doc": 0, "max": 6}));
@@ -596,7 +674,7 @@ fn build_scenario(scratch: &str, seed: u64, n_lib: usize, n_sessions: usize, doc
         ops.push(json!({"op": "close", "doc": 0}));
         ops.push(json!({"op": "untitled"}));
         ops.push(json!({"op": "shutdown"}));
-        sessions.push(json!({"name": format!("s{k}"), "settings": settings, "settings2": settings2, "docs": docs, "ops": ops}));
+        sessions.push(json!({"name": format!("s{k}"), "settings": settings, "settings2": settings2, "docs": docs, "odd": odd, "ops": ops}));
     }
     json!({"lib_docs": lib, "wasm_texts": wasm, "sessions": sessions})
 }
@@ -699,13 +777,26 @@ fn run_child(scratch: &str) {
         marker(&format!("ls:{name}"));
         let mut ops_done: BTreeMap<String, u64> = BTreeMap::new();
         let mut commands: BTreeMap<String, u64> = BTreeMap::new();
+        let mut odd_forms: BTreeMap<String, u64> = BTreeMap::new();
         let mut stuck = 0u64;
         let res = guarded(|| {
             let mut s = Session::new(sess["settings"].clone());
             let docs = sess["docs"].as_array().unwrap();
-            for op in sess["ops"].as_array().unwrap() {
+            // every op is announced by a marker `<phase>#<index>[.<step>]`: the parent attributes each system call to
+            // the op (and so to the document URI / command) in progress
+            let mut cur = format!("ls:{name}");
+            for (opi, op) in sess["ops"].as_array().unwrap().iter().enumerate() {
                 let kind = op["op"].as_str().unwrap();
                 *ops_done.entry(kind.to_string()).or_insert(0) += 1;
+                marker(&format!(
+                    "{cur}#{opi}{}",
+                    match kind {
+                        "add_file" => ".file",
+                        "add_user" => ".user",
+                        "odd" => ".open",
+                        _ => "",
+                    }
+                ));
                 let d = &docs[op["doc"].as_u64().unwrap_or(0) as usize % docs.len()];
                 let uri = d["uri"].as_str().unwrap();
                 let ok = match kind {
@@ -717,11 +808,39 @@ fn run_child(scratch: &str) {
                     "add_file" => s.command("HarperAddToFileDict", vec![op["word"].clone(), json!(uri)]),
                     "unknown_command" => s.command("HarperNoSuchCommand", vec![json!("x")]) && s.command("HarperRecordLint", vec![json!("not json")]) && s.command("HarperIgnoreLint", vec![json!("not a url")]),
                     "watched_delete" => s.notify("workspace/didChangeWatchedFiles", json!({"changes": [{"uri": uri, "type": 3}]})),
+                    "odd" => {
+                        // an unusual URI: open, change, add a word to ITS file dictionary and to the user dictionary, close
+                        let u = sess["odd"][op["i"].as_u64().unwrap_or(0) as usize].as_str().unwrap_or("untitled:Untitled-1");
+                        let w = op["word"].as_str().unwrap_or("qvex");
+                        let form = if u.starts_with("untitled:/") {
+                            "untitled-absolute"
+                        } else if u.starts_with("untitled:") && u.contains("..") {
+                            "untitled-dotdot"
+                        } else if u.starts_with("untitled:") {
+                            "untitled-opaque"
+                        } else if u.starts_with("file:") {
+                            "file-odd"
+                        } else {
+                            "other-scheme"
+                        };
+                        *odd_forms.entry(form.to_string()).or_insert(0) += 1;
+                        let a = s.did_open(u, "markdown", &format!("Here {w} is, and teh {w}s too.\n"));
+                        marker(&format!("{cur}#{opi}.file"));
+                        let b = s.command("HarperAddToFileDict", vec![json!(w), json!(u)]);
+                        marker(&format!("{cur}#{opi}.user"));
+                        let c = s.command("HarperAddToUserDict", vec![json!(format!("{w}u")), json!(u)]);
+                        marker(&format!("{cur}#{opi}.rest"));
+                        let d = s.did_change(u, &format!("Now {w}u and {w} are known.\n"));
+                        let e = s.did_save(u);
+                        let f = s.did_close(u);
+                        a && b && c && d && e && f
+                    }
                     "untitled" => {
                         s.did_open("untitled:Untitled-1", "plaintext", "Here vlimp is.") && s.command("HarperAddToFileDict", vec![json!("vlimp"), json!("untitled:Untitled-1")])
                     }
                     "config" => {
-                        marker(&format!("ls:{name}b"));
+                        cur = format!("ls:{name}b");
+                        marker(&cur);
                         let s2 = sess["settings2"].clone();
                         s.settings = s2.clone();
                         s.notify("workspace/didChangeConfiguration", json!({"settings": s2}))
@@ -777,7 +896,7 @@ fn run_child(scratch: &str) {
             }
             (s.published.len(), s.config_requests)
         });
-        ls_sum.push(json!({"name": name, "ops": ops_done, "commands": commands, "stuck": stuck,
+        ls_sum.push(json!({"name": name, "ops": ops_done, "commands": commands, "odd_forms": odd_forms, "stuck": stuck,
             "published": res.as_ref().map(|r| r.0).unwrap_or(0), "config_requests": res.as_ref().map(|r| r.1).unwrap_or(0),
             "panic": res.err()}));
     }
@@ -794,10 +913,15 @@ struct Judged {
     line: String,
 }
 
+/// `ls:s3b#17.file` -> `ls:s3b`: the part of a marker that selects the configuration
+fn base_phase(p: &str) -> &str {
+    p.split('#').next().unwrap_or(p)
+}
+
 /// parse a strace log, split it into phases, judge every record; emits the correspondence lines
 fn judge_log(rep: &mut Report, log: &str, cwd: &[u8], cfgs: &BTreeMap<String, MCfg>, first_phase: &str, tag: &str) -> (Vec<Judged>, BTreeMap<String, u64>) {
     let mut phase = first_phase.to_string();
-    let mut cfg = cfgs.get(&phase).cloned().unwrap_or_else(MCfg::none);
+    let mut cfg = cfgs.get(base_phase(&phase)).cloned().unwrap_or_else(MCfg::none);
     let mut cwd = cwd.to_vec();
     let mut out = vec![];
     let mut stats: BTreeMap<String, u64> = BTreeMap::new();
@@ -807,11 +931,16 @@ fn judge_log(rep: &mut Report, log: &str, cwd: &[u8], cfgs: &BTreeMap<String, MC
         *stats.entry(format!("syscall:{}", rec.name)).or_insert(0) += 1;
         match interpret(&cwd, &rec.name, &rec.args, rec.ret_ok) {
             Parsed::Marker(m) => {
+                let new_base = base_phase(&m) != base_phase(&phase);
                 phase = m;
-                cfg = cfgs.get(&phase).cloned().unwrap_or_else(MCfg::none);
-                rep.case(&cfg_line(&cfg), "cfg");
-                seen.clear();
-                *stats.entry("markers".into()).or_insert(0) += 1;
+                if new_base {
+                    cfg = cfgs.get(base_phase(&phase)).cloned().unwrap_or_else(MCfg::none);
+                    rep.case(&cfg_line(&cfg), "cfg");
+                    seen.clear();
+                    *stats.entry("markers".into()).or_insert(0) += 1;
+                } else {
+                    *stats.entry("op_markers".into()).or_insert(0) += 1;
+                }
             }
             Parsed::Chdir(p) => cwd = p,
             Parsed::NetOther(n) => *stats.entry(format!("net_other:{n}")).or_insert(0) += 1,
@@ -881,14 +1010,14 @@ fn strace_cmd(log: &str) -> Command {
 }
 
 /// the monitored run of the library + wasm API + in-process language server
-fn monitored_run(rep: &mut Report, args: &Args, seed: u64, replaying: bool) {
+fn monitored_run(rep: &mut Report, args: &Args, seed: u64, replaying: bool, small: Option<(usize, usize, usize)>) {
     let scratch = format!("/tmp/w-c10-{}-{}", std::process::id(), seed);
     let log = format!("{scratch}.strace");
     let _ = std::fs::remove_dir_all(&scratch);
     let home = format!("{scratch}/home");
     std::fs::create_dir_all(format!("{scratch}/cwd")).unwrap();
     std::fs::create_dir_all(&home).unwrap();
-    let (n_lib, n_sess, n_docs) = (args.scale(58, 2000), args.scale(5, 40), args.scale(2, 3));
+    let (n_lib, n_sess, n_docs) = small.unwrap_or((args.scale(58, 2000), args.scale(5, 40), args.scale(2, 3)));
     let sc = build_scenario(&scratch, seed, n_lib, n_sess, n_docs);
     // pre-write every document and the scenario: the child writes nothing itself
     let mut prewritten: BTreeMap<String, String> = BTreeMap::new();
@@ -949,6 +1078,9 @@ fn monitored_run(rep: &mut Report, args: &Args, seed: u64, replaying: bool) {
         for (k, v) in s["commands"].as_object().unwrap() {
             rep.count_n(&format!("ls_command:{k}"), v.as_u64().unwrap_or(0));
         }
+        for (k, v) in s["odd_forms"].as_object().unwrap() {
+            rep.count_n(&format!("ls_odd_uri:{k}"), v.as_u64().unwrap_or(0));
+        }
         rep.count_n("ls_handlers_stuck", s["stuck"].as_u64().unwrap_or(0));
         if !s["panic"].is_null() {
             rep.count("ls_session_panicked");
@@ -969,19 +1101,130 @@ fn monitored_run(rep: &mut Report, args: &Args, seed: u64, replaying: bool) {
     }
     rep.monitor("strace_records", judged.len() as u64);
     rep.monitor("ls_write_opens_seen", ls_writes as u64);
-    let input = |j: &Judged| json!({"kind": "run", "seed": seed, "tier": args.tier, "phase": j.phase, "syscall": j.line});
+    // ---- which op (document URI, command) each `<phase>#<index>.<step>` marker stands for
+    struct OpInfo {
+        describe: String,
+        uri: String,
+        user_raw: String,
+        filedir_raw: String,
+    }
+    let mut ops: BTreeMap<String, OpInfo> = BTreeMap::new();
+    for sess in sc["sessions"].as_array().unwrap() {
+        let name = sess["name"].as_str().unwrap();
+        let mut cur = format!("ls:{name}");
+        let mut raw = raw_dict_paths(&sess["settings"], &home);
+        for (opi, op) in sess["ops"].as_array().unwrap().iter().enumerate() {
+            let kind = op["op"].as_str().unwrap();
+            let docs = sess["docs"].as_array().unwrap();
+            let uri = match kind {
+                "odd" => sess["odd"][op["i"].as_u64().unwrap_or(0) as usize].as_str().unwrap_or("").to_string(),
+                "untitled" => "untitled:Untitled-1".to_string(),
+                _ => docs[op["doc"].as_u64().unwrap_or(0) as usize % docs.len()]["uri"].as_str().unwrap_or("").to_string(),
+            };
+            let steps: &[(&str, &str)] = match kind {
+                "add_file" => &[(".file", "HarperAddToFileDict")],
+                "add_user" => &[(".user", "HarperAddToUserDict")],
+                "odd" => &[(".open", "didOpen"), (".file", "HarperAddToFileDict"), (".user", "HarperAddToUserDict"), (".rest", "didChange/didSave/didClose")],
+                other => &[("", other)],
+            };
+            for (suffix, what) in steps {
+                let what = if suffix.is_empty() { format!("op {what}") } else { what.to_string() };
+                ops.insert(
+                    format!("{cur}#{opi}{suffix}"),
+                    OpInfo { describe: format!("{what} on document URI {uri}"), uri: uri.clone(), user_raw: raw.0.clone(), filedir_raw: raw.1.clone() },
+                );
+            }
+            if kind == "config" {
+                cur = format!("ls:{name}b");
+                raw = raw_dict_paths(&sess["settings2"], &home);
+            }
+        }
+    }
+    // ---- correspondence of the save-path model (EffectsSave.file_dict_plan / user_dict_plan, extracted) with the
+    // open-for-writing and rename system calls the implementation issued during each add-to-dictionary command
+    let mut by_phase: BTreeMap<&str, Vec<&Judged>> = BTreeMap::new();
+    for j in &judged {
+        by_phase.entry(j.phase.as_str()).or_default().push(j);
+    }
+    let observed = |ph: &str| -> String {
+        let mut parts = vec![];
+        for j in by_phase.get(ph).map(|v| v.as_slice()).unwrap_or(&[]) {
+            match &j.ev {
+                Ev::Open(true, p) => parts.push(format!("O{}", hex(p))),
+                Ev::Rename(a, b) => parts.push(format!("R{}:{}", hex(a), hex(b))),
+                Ev::Unlink(p) => parts.push(format!("X{}", hex(p))),
+                _ => {}
+            }
+        }
+        if parts.is_empty() {
+            "-".to_string()
+        } else {
+            parts.join(" ")
+        }
+    };
+    let (mut n_file_plans, mut n_user_plans, mut n_nothing) = (0u64, 0u64, 0u64);
+    for (ph, info) in &ops {
+        if ph.ends_with(".file") {
+            let fp = uri_file_path(&info.uri);
+            let obs = observed(ph);
+            rep.case(&format!("F {} {}", hex(info.filedir_raw.as_bytes()), fp.as_ref().map(|p| hex(p)).unwrap_or_else(|| "N".to_string())), &obs);
+            rep.eval();
+            n_file_plans += 1;
+            if obs == "-" {
+                n_nothing += 1;
+            }
+            rep.count(match (&fp, empty_dict_name(&fp)) {
+                (None, _) => "file_dict_save:url-without-file-path(nothing written)",
+                (Some(_), true) => "file_dict_save:empty-name",
+                (Some(_), false) => "file_dict_save:named",
+            });
+        } else if ph.ends_with(".user") {
+            rep.case(&format!("U {}", hex(info.user_raw.as_bytes())), &observed(ph));
+            rep.eval();
+            n_user_plans += 1;
+        }
+    }
+    rep.monitor("file_dict_saves_compared_with_model", n_file_plans);
+    rep.monitor("user_dict_saves_compared_with_model", n_user_plans);
+    rep.monitor("file_dict_commands_that_wrote_nothing", n_nothing);
+
+    let input = |j: &Judged| {
+        json!({"kind": "run", "seed": seed, "tier": args.tier, "sessions": n_sess, "lib": n_lib, "docs": n_docs, "phase": j.phase, "syscall": j.line,
+               "during": ops.get(&j.phase).map(|o| o.describe.clone()).unwrap_or_default()})
+    };
+    // FC10a (known finding): a document URI whose file path has no component (`file:///`) gives the EMPTY file-dictionary
+    // name; save_dict then creates `<fileDictPath>.tmp` next to the directory and fails to rename it onto `<fileDictPath>/`.
+    // Classified as narrowly as that: the command, the URI shape and exactly these two system calls.
+    let mut empty_name_tmp: BTreeSet<Vec<u8>> = BTreeSet::new();
     for j in &judged {
         if j.verdict != 0 {
-            let cfg = cfgs.get(&j.phase).cloned().unwrap_or_else(MCfg::none);
+            let cfg = cfgs.get(base_phase(&j.phase)).cloned().unwrap_or_else(MCfg::none);
+            let op = ops.get(&j.phase);
+            let dir_tmp = tmp_sibling(&cfg.filedir);
+            let is_empty_name = j.phase.ends_with(".file")
+                && op.map_or(false, |o| empty_dict_name(&uri_file_path(&o.uri)))
+                && match &j.ev {
+                    Ev::Open(true, p) => *p == dir_tmp,
+                    Ev::Rename(a, b) => *a == dir_tmp && *b == cfg.filedir,
+                    _ => false,
+                };
+            let class = if is_empty_name {
+                empty_name_tmp.insert(dir_tmp.clone());
+                "stray-write:empty-file-dict-name".to_string()
+            } else {
+                verdict_class(j.verdict).to_string()
+            };
             rep.fail(
-                verdict_class(j.verdict),
+                &class,
                 format!(
-                    "phase {}: {}  [configured: user={} filedir={} stats={}]",
+                    "phase {}{}: {}  [configured: user={} filedir={} stats={}]{}",
                     j.phase,
+                    op.map(|o| format!(" ({})", o.describe)).unwrap_or_default(),
                     j.line.chars().take(300).collect::<String>(),
                     show(&cfg.user),
                     show(&cfg.filedir),
-                    show(&cfg.stats)
+                    show(&cfg.stats),
+                    if is_empty_name { "  — the URI's file path has no component, the file-dictionary name is empty: save_dict writes `<fileDictPath>.tmp` NEXT TO the file-dictionary directory" } else { "" }
                 ),
                 input(j),
             );
@@ -1001,15 +1244,22 @@ fn monitored_run(rep: &mut Report, args: &Args, seed: u64, replaying: bool) {
             if std::fs::read_to_string(f).ok().as_deref() == Some(orig.as_str()) {
                 n_docs_ok += 1;
             } else {
-                rep.fail("document-modified", format!("the document {f} was modified on disk"), json!({"kind": "run", "seed": seed, "tier": args.tier, "file": f}));
+                rep.fail("document-modified", format!("the document {f} was modified on disk"), json!({"kind": "run", "seed": seed, "tier": args.tier, "sessions": n_sess, "lib": n_lib, "docs": n_docs, "file": f}));
             }
             continue;
         }
         let fb = f.as_bytes();
         if all_cfgs.iter().any(|c| path_allowed(c, fb)) {
             n_cfg_files += 1;
+        } else if empty_name_tmp.contains(fb) {
+            // left behind by the failed rename of FC10a (the system calls that created it were attributed above)
+            rep.fail(
+                "stray-file:empty-file-dict-name",
+                format!("file {f} exists after the run: `<fileDictPath>.tmp`, created next to the file-dictionary directory by HarperAddToFileDict on a URI with an empty file-dictionary name"),
+                json!({"kind": "run", "seed": seed, "tier": args.tier, "sessions": n_sess, "lib": n_lib, "docs": n_docs, "file": f}),
+            );
         } else {
-            rep.fail("stray-file", format!("file {f} exists after the run and is no configured dictionary / statistics file"), json!({"kind": "run", "seed": seed, "tier": args.tier, "file": f}));
+            rep.fail("stray-file", format!("file {f} exists after the run and is no configured dictionary / statistics file"), json!({"kind": "run", "seed": seed, "tier": args.tier, "sessions": n_sess, "lib": n_lib, "docs": n_docs, "file": f}));
         }
     }
     rep.monitor("configured_files_present_after_run", n_cfg_files);
@@ -1156,6 +1406,8 @@ fn exchange(w: &mut dyn Write, rx: &std::sync::mpsc::Receiver<Value>, settings: 
     false
 }
 
+const EDITOR_EXCHANGES: u64 = 14;
+
 fn editor_session(w: &mut dyn Write, rx: &std::sync::mpsc::Receiver<Value>, settings: &Value, doc: &str) -> u64 {
     let uri = format!("file://{doc}");
     let resp = |id: i64| move |m: &Value| m.get("method").is_none() && m["id"] == json!(id);
@@ -1169,6 +1421,11 @@ fn editor_session(w: &mut dyn Write, rx: &std::sync::mpsc::Receiver<Value>, sett
     ok += exchange(w, rx, settings, json!({"jsonrpc":"2.0","method":"textDocument/didChange","params":{"textDocument":{"uri":uri,"version":2},"contentChanges":[{"text":"Teh quick zorgle."}]}}), &publ) as u64;
     ok += exchange(w, rx, settings, json!({"jsonrpc":"2.0","id":2,"method":"workspace/executeCommand","params":{"command":"HarperAddToUserDict","arguments":["zorgle",uri]}}), &resp(2)) as u64;
     ok += exchange(w, rx, settings, json!({"jsonrpc":"2.0","id":3,"method":"workspace/executeCommand","params":{"command":"HarperAddToFileDict","arguments":["blorfl",uri]}}), &resp(3)) as u64;
+    // unsaved buffers in VS Code's three URI shapes (seed c10-2): each gets a word added to "its" file dictionary
+    for (i, u) in [format!("untitled:{doc}.draft"), "untitled:Untitled-1".to_string(), "untitled:../../escape.md".to_string()].iter().enumerate() {
+        ok += exchange(w, rx, settings, json!({"jsonrpc":"2.0","method":"textDocument/didOpen","params":{"textDocument":{"uri":u,"languageId":"plaintext","version":1,"text":"Here vlimp is."}}}), &publ) as u64;
+        ok += exchange(w, rx, settings, json!({"jsonrpc":"2.0","id":10 + i as i64,"method":"workspace/executeCommand","params":{"command":"HarperAddToFileDict","arguments":["vlimp",u]}}), &resp(10 + i as i64)) as u64;
+    }
     ok += exchange(w, rx, settings, json!({"jsonrpc":"2.0","id":4,"method":"textDocument/codeAction","params":{"textDocument":{"uri":uri},"range":{"start":{"line":0,"character":0},"end":{"line":9,"character":0}},"context":{"diagnostics":[]}}}), &resp(4)) as u64;
     ok += exchange(w, rx, settings, json!({"jsonrpc":"2.0","id":5,"method":"shutdown"}), &resp(5)) as u64;
     let _ = w.write_all(&frame(&json!({"jsonrpc":"2.0","method":"exit","params":null})));
@@ -1265,15 +1522,15 @@ fn real_binary(rep: &mut Report, _args: &Args) {
             }
         }
         rep.monitor(&format!("real_{mode}_exchanges_completed"), ok);
-        if mode == "tcp" && ok < 8 && String::from_utf8_lossy(&std::fs::read(&log).unwrap_or_default()).contains("EADDRINUSE") {
+        if mode == "tcp" && ok < EDITOR_EXCHANGES && String::from_utf8_lossy(&std::fs::read(&log).unwrap_or_default()).contains("EADDRINUSE") {
             // somebody else on this machine owns port 4000 right now: nothing can be observed, nothing is claimed
             rep.monitor("real_tcp_skipped_port_4000_in_use", 1);
             let _ = std::fs::remove_dir_all(&scratch);
             let _ = std::fs::remove_file(&log);
             continue;
         }
-        if ok < 8 {
-            panic!("real harper-ls ({mode}): only {ok} of 8 editor exchanges completed");
+        if ok < EDITOR_EXCHANGES {
+            panic!("real harper-ls ({mode}): only {ok} of {EDITOR_EXCHANGES} editor exchanges completed");
         }
         let logtext = String::from_utf8_lossy(&std::fs::read(&log).unwrap_or_default()).to_string();
         let (judged, stats) = judge_log(rep, &logtext, format!("{scratch}/cwd").as_bytes(), &cfgs, "real", &format!("real-{mode}"));
@@ -1355,14 +1612,19 @@ fn main() {
         return;
     }
     let mut rep = Report::new(&args.out);
-    rep.rule = "no socket/connect/send/bind outside AF_UNIX, no connect, no resolver file, every write/rename/unlink/mkdir on a configured dictionary or statistics path (strace of library + wasm API + language-server sessions); dependency graph and call-site theorems in coq/Properties/C10.v".into();
+    rep.rule = "no socket/connect/send/bind outside AF_UNIX, no connect, no resolver file; files opened for writing / removed: only the user dictionary, its .tmp sibling, the statistics file, files directly inside the file-dictionary directory; only rename: <dictionary>.tmp -> <dictionary>; mkdir only towards a configured location (strace of library + wasm API + language-server sessions incl. untitled:/odd URIs); per add-to-dictionary command the write/rename calls equal the extracted save-path model; dependency graph and call-site theorems in coq/Properties/C10.v".into();
     let mut ran_replay = false;
     for inp in &corpus {
         match inp["kind"].as_str().unwrap_or("") {
             "events" => selftest(&mut rep, inp),
             "run" => {
                 let seed = inp["seed"].as_u64().unwrap_or(args.seed);
-                monitored_run(&mut rep, &args, seed, args.replay.is_some());
+                // a recorded failure carries the size of the run it came from; hand-written corpus entries may ask for a small one
+                let small = match (inp["lib"].as_u64(), inp["sessions"].as_u64(), inp["docs"].as_u64()) {
+                    (Some(l), Some(n), Some(d)) if n >= 1 && d >= 1 => Some((l as usize, n as usize, d as usize)),
+                    _ => None,
+                };
+                monitored_run(&mut rep, &args, seed, args.replay.is_some(), small);
                 ran_replay = true;
             }
             "real" => {
@@ -1373,7 +1635,7 @@ fn main() {
         }
     }
     if args.replay.is_none() {
-        monitored_run(&mut rep, &args, args.seed, false);
+        monitored_run(&mut rep, &args, args.seed, false, None);
         let mut r = Rng::new(args.seed);
         loopback_cases(&mut rep, &mut r, args.scale(300, 5000));
         // the real harper-ls binary (stdio + TCP listener): always in the thorough tier; in the quick tier only when a
